@@ -13,11 +13,20 @@ always in range, shapes are never edited, value names are non-empty and unique w
 its name finds), graphs stay topologically sorted (replacement values are drawn from what is visible
 *before* the consumer), and a configuration that nodes still refer to is never removed without
 cascade (documented to leave dangling references; the statement lists cascade only).
+
+Every operation of the statement is drawn over the argument classes its public signature accepts,
+not only the defaults: cloning = ``Model.clone`` (deep_copy False/True), a model re-assembled from
+``Graph.clone`` + ``Function.clone`` (deep_copy False/True) with the same registered configurations,
+and a nested graph replaced in its node by its own ``clone(allow_outer_scope_values=True)``;
+serialise+deserialise = in memory, through bytes, through a file (``ir.save``/``ir.load``);
+``add_device_configuration`` with num_devices, device_names or both.
 """
 
 from __future__ import annotations
 
 import dataclasses
+import os
+import tempfile
 from typing import Any
 
 import numpy as np
@@ -431,6 +440,8 @@ class C19World:
         dup = any(c.name == name for c in self.model.device_configurations)
         res = Result("addcfg", "report" if dup else "valid", "duplicate-name" if dup else "fresh-name")
         kw = {"device_names": tuple(f"dev{i}" for i in range(ndev))} if named else {"num_devices": ndev}
+        if named == 2:  # both spellings at once (must agree)
+            kw["num_devices"] = ndev
         return self._call(res, self.model.add_device_configuration, name, **kw)
 
     def _op_shard(self, node_i, sel, cfg_i, axis, num_shards, devs, stage):
@@ -570,12 +581,57 @@ class C19World:
             self.detached.append(node)
         return res
 
-    def _op_clone(self):
-        res = self._call(Result("clone"), self.model.clone)
+    def _op_clone(self, deep=False, how="model"):
+        """``how``: "model" = Model.clone; "parts" = a new Model assembled from Graph.clone and
+        Function.clone with the source's registered configurations (what Model.clone documents)."""
+        kind = "clone" + ("-parts" if how == "parts" else "") + ("-deep" if deep else "")
+        src = self.model
+
+        def do():
+            if how == "parts":
+                graph = src.graph.clone(deep_copy=bool(deep))
+                funcs = [f.clone(deep_copy=bool(deep)) for f in src.functions.values()]
+                return ir.Model(graph, ir_version=src.ir_version, functions=funcs,
+                                device_configurations=src.device_configurations)
+            if deep:
+                return src.clone(deep_copy=True)
+            return src.clone()
+        res = self._call(Result(kind, info={"source": src, "source_detached": list(self.detached)}), do)
         if not res.raised:
             self.model = res.info["ret"]
             self.detached = []
         return res
+
+    def graph_attrs(self):
+        """(node info, attribute name, position or None, graph) of every nested graph, walk order."""
+        out = []
+        for info in self.index().nodes:
+            for name, attr in info.node.attributes.items():
+                if not isinstance(attr, ir.Attr) or attr.is_ref():
+                    continue
+                if attr.type == GRAPH_T:
+                    out.append((info, name, None, attr.value))
+                elif attr.type == GRAPHS_T:
+                    out += [(info, name, j, g) for j, g in enumerate(attr.value)]
+        return out
+
+    def _op_subclone(self, k, deep):
+        """Replace a nested graph by its own clone (outer-scope references kept) in its node."""
+        subs = self.graph_attrs()
+        if not subs:
+            return Result("subclone", skipped="no nested graph")
+        info, name, pos, graph = subs[k % len(subs)]
+
+        def do():
+            new = graph.clone(allow_outer_scope_values=True, deep_copy=bool(deep))
+            if pos is None:
+                info.node.attributes[name] = ir.AttrGraph(name, new)
+            else:
+                graphs = list(info.node.attributes[name].value)
+                graphs[pos] = new
+                info.node.attributes[name] = ir.AttrGraphs(name, graphs)
+            return new
+        return self._call(Result("subclone-deep" if deep else "subclone", info={"node": info.node}), do)
 
     def _op_rmcfg(self, cfg_i, cascade, by_name):
         cfg = self.pick_cfg(cfg_i)
@@ -590,12 +646,21 @@ class C19World:
         res = Result(kind, "valid", "referenced" if refd else "unreferenced", info={"cfg": cfg})
         return self._call(res, self.model.remove_device_configuration, cfg.name if by_name else cfg, cascade=cascade)
 
-    def _op_rt(self, via_bytes):
-        res = Result("roundtrip")
+    def _op_rt(self, via):
+        """``via``: 0/False in memory, 1/True through bytes, 2 through a file (ir.save / ir.load)."""
+        res = Result("roundtrip", info={"source": self.model, "source_detached": list(self.detached)})
 
         def do():
+            if via == 2:
+                fd, path = tempfile.mkstemp(suffix=".onnx", dir=os.environ.get("VF_SHARD_TMP") or None)
+                os.close(fd)
+                try:
+                    ir.save(self.model, path)
+                    return ir.load(path)
+                finally:
+                    os.unlink(path)
             proto = ir.to_proto(self.model)
-            if via_bytes:
+            if via:
                 data = proto.SerializeToString()
                 proto = onnx.ModelProto()
                 proto.ParseFromString(data)
@@ -611,7 +676,7 @@ class C19World:
 # generator of operation descriptors
 # ------------------------------------------------------------------------------------------
 WEIGHTS = {"addcfg": 5, "shard": 34, "stage": 8, "rename": 7, "shadow": 5, "rin": 10, "rsi": 4, "rso": 6, "rauw": 5, "rm": 2,
-           "clone": 4, "rmcfg": 4, "rt": 6}
+           "clone": 5, "subclone": 2, "rmcfg": 4, "rt": 6}
 
 
 class OpGen:
@@ -636,7 +701,7 @@ class OpGen:
             taken = {c.name for c in cfgs}
             free = [f"c{i}" for i in range(6) if f"c{i}" not in taken]
             name = rng.choice(free) if free and rng.random() > 0.05 * self.hostile else f"c{R(6)}"
-            return ["addcfg", name, rng.choice([1, 2, 2, 3, 4]), rng.random() < 0.5]
+            return ["addcfg", name, rng.choice([1, 2, 2, 3, 4]), rng.choice([0, 0, 1, 1, 2])]
         if kind == "shard":
             return self._shard()
         if kind == "stage":
@@ -656,10 +721,12 @@ class OpGen:
         if kind == "rm":
             return ["rm", self._annotated_node_or_any()]
         if kind == "clone":
-            return ["clone"]
+            return ["clone", rng.random() < 0.45, "parts" if rng.random() < 0.3 else "model"]
+        if kind == "subclone":
+            return ["subclone", R(16), rng.random() < 0.5]
         if kind == "rmcfg":
             return ["rmcfg", R(8), rng.random() < 0.8, rng.random() < 0.4]
-        return ["rt", rng.random() < 0.5]
+        return ["rt", rng.choice([0, 0, 1, 1, 2])]
 
     # bias edits towards annotated nodes/values, where the property has something to say
     def _annotated_node_or_any(self):
